@@ -3028,3 +3028,91 @@ def slice_rebuild(r: R, chk, modules: List[str], rule="SLICE-REBUILD"):
     chk.ob(rule, f"no slice is rebuilt from `.indices()` ({n} functions of {modules}; positive control {'recognised' if ctl else 'MISSING'})", bool(ctl), loc="",
            detail="" if ctl else "the positive control of the rule is not recognised any more")
     return n
+
+
+# ---------------------------------------------------------------------------------------------------------
+# POINT-OPS: outside the operators the user asks for, a control point is only ever scaled from the left and added
+def _point_elements(fn):
+    """(is_point_container, is_point_element) for a function: `.ctrlpoints`, copies / slices of it, loop and comprehension targets over it"""
+    conts, elems = set(), set()
+
+    def is_pts(e) -> bool:
+        if isinstance(e, ast.Attribute):
+            return e.attr == "ctrlpoints"
+        if isinstance(e, ast.Name):
+            return e.id in conts
+        if isinstance(e, ast.Call) and e.args and seg(e.func) in ("tuple", "list", "np.array", "np.asarray", "copy", "deepcopy", "reversed"):
+            return is_pts(e.args[0])
+        if isinstance(e, ast.Subscript) and isinstance(e.slice, ast.Slice):
+            return is_pts(e.value)
+        return False
+
+    def bind(target, it):
+        """names of `target` that hold a point when iterating `it`"""
+        if is_pts(it):
+            return {x.id for x in ast.walk(target) if isinstance(x, ast.Name)} if isinstance(target, ast.Name) else set()
+        if isinstance(it, ast.Call) and seg(it.func) == "zip" and isinstance(target, ast.Tuple) and len(target.elts) == len(it.args):
+            return set().union(*[bind(t, a) for t, a in zip(target.elts, it.args)])
+        if isinstance(it, ast.Call) and seg(it.func) == "enumerate" and it.args and isinstance(target, ast.Tuple) and len(target.elts) == 2:
+            return bind(target.elts[1], it.args[0])
+        return set()
+
+    changed = True
+    while changed:
+        changed = False
+        for n in ast.walk(fn):
+            if isinstance(n, ast.Assign) and len(n.targets) == 1 and isinstance(n.targets[0], ast.Name) and is_pts(n.value) and n.targets[0].id not in conts:
+                conts.add(n.targets[0].id)
+                changed = True
+            if isinstance(n, (ast.For, ast.comprehension)):
+                new = bind(n.target, n.iter) - elems
+                if new:
+                    elems |= new
+                    changed = True
+
+    def is_el(e) -> bool:
+        if isinstance(e, ast.Name):
+            return e.id in elems
+        if isinstance(e, ast.Subscript) and not isinstance(e.slice, ast.Slice):
+            return is_pts(e.value)
+        return False
+
+    return is_pts, is_el
+
+
+def _point_ops(fn):
+    """operators applied to a control point that are not `scalar * point` / `point + point`"""
+    is_pts, is_el = _point_elements(fn)
+    out = []
+    for n in ast.walk(fn):
+        if isinstance(n, ast.BinOp) and (is_el(n.left) or is_el(n.right)):
+            if isinstance(n.op, ast.Mult) and is_el(n.right) and not is_el(n.left):
+                continue
+            if isinstance(n.op, ast.Add):
+                continue
+            out.append(n)
+        elif isinstance(n, ast.UnaryOp) and isinstance(n.op, (ast.USub, ast.UAdd)) and is_el(n.operand):
+            out.append(n)
+        elif isinstance(n, ast.AugAssign) and (is_el(n.target) or is_el(n.value)) and not isinstance(n.op, ast.Add):
+            out.append(n)
+    return out
+
+
+def point_ops(r: R, chk, quals: List[str], control: str = "curves.BaseCurve.__eq__", rule="POINT-OPS", floor: int = 1):
+    """The library promises that a control point only needs `scalar * point` and `point + point` (tests/test_customstruc.py, the
+    docstring of curves.invert).  The operators of a curve (A - B, A / s, A @ M ...) apply what the caller asked for; everything
+    else — evaluation, refinement, derivation — may use nothing but those two.  `points[i + 1] - points[i]` needs a subtraction the
+    point type may not have, and wraps around for unsigned integer arrays."""
+    n = 0
+    for q in quals:
+        fi = r.prog.func(q)
+        n += 1
+        bad = _point_ops(fi.node)
+        ok = not bad
+        chk.ob(rule, f"{q}: control points are only scaled from the left and added", ok, loc=f"{fi.module}.py:{(bad[0] if bad else fi.node).lineno}",
+               detail="" if ok else f"{q}: `{seg(bad[0], 50)}` applies an operator to a control point that is neither `scalar * point` nor `point + point`: a point type with the library's minimal protocol has no such operator (TypeError), and an unsigned integer array wraps around — the operation fails or returns a wrong curve for control points the library accepts",
+               func=q, construct=f"operator on a control point: {seg(bad[0], 40)}" if bad else "")
+    ctl = _point_ops(r.prog.func(control).node) if r.has(control) else []
+    chk.floor(rule, f"positive control: operators on points recognised in {control}", len(ctl), 1)
+    chk.floor(rule, "functions examined", n, floor)
+    return n
